@@ -76,6 +76,15 @@ def _cases(ctx, deep=False):
                               'script': [['bg_mem_write', k], ['sync_open'], ['sleep', 3.0], ['sync_close'], ['reconnect']]})
         cases.append({'cfg': {}, 'seed': rng.randrange(1 << 30),
                       'script': [['bg_mem_write', k], ['sync_open'], ['sleep', 1.0], ['sync_close'], ['reconnect']]})
+    # byte-code-level preemption at the two check-then-use sites of Crazyflie.link (every source line of the
+    # dispatcher loop / of send_packet is a yield point; the user closes the link while another thread stands at
+    # the line that uses the link)
+    for fn, text in (('run', 'receive_packet('), ('send_packet', 'send_packet(pk)'), ('send_packet', 'needs_resending')):
+        for k in (0, 12, 30, 47):
+            for nr in (False, True):
+                cases.append({'cfg': {'needs_resending': nr}, 'seed': rng.randrange(1 << 30),
+                              'line_yield': [['cflib/crazyflie/__init__.py', fn]],
+                              'script': [['open'], ['wait_line', fn, text, k], ['close'], ['sleep', 0.5], ['reconnect']]})
     # firmware re-announcing a parameter value during the download (value-updated notifications)
     for s in range(seeds):
         for npar in (3, 4):
